@@ -271,11 +271,46 @@ func (p *policy) UpdateResources(container cache.Container) error {
 	poolHint := grant.GetCPUNode().Name()
 	err := p.allocateResources(container, poolHint)
 	if err != nil {
+		// Don't leave the container without an allocation while the
+		// runtime keeps it pinned to its old resources.
+		if rerr := p.restoreGrant(grant); rerr != nil {
+			log.Error("failed to restore previous allocation of %s: %v",
+				container.PrettyName(), rerr)
+		}
 		return err
 	}
 
 	p.root.Dump("<post-update>")
 	p.checkAllocations("  <post-update %s>", container.PrettyName())
+
+	return nil
+}
+
+// restoreGrant reinstates a just released grant.
+func (p *policy) restoreGrant(grant Grant) error {
+	offer, err := p.restoreMemOffer(grant)
+	if err != nil {
+		return err
+	}
+
+	updates, err := grant.GetCPUNode().FreeSupply().Reserve(grant, offer)
+	if err != nil {
+		return err
+	}
+
+	for id, z := range updates {
+		if g, ok := p.allocations.grants[id]; ok {
+			g.SetMemoryZone(z)
+			if opt.PinMemory && g.MemoryType() != memoryPreserve {
+				g.GetContainer().SetCpusetMems(z.MemsetString())
+			}
+		}
+	}
+
+	p.allocations.grants[grant.GetContainer().GetID()] = grant
+	p.saveAllocations()
+	p.applyGrant(grant)
+	p.updateSharedAllocations(&grant)
 
 	return nil
 }
